@@ -70,20 +70,31 @@ def ob_event_frame_string(s: str) -> str:
     return _judge(frame, _ref_event_frame(sub_id, ev), ["EVENT", sub_id, ev.to_json_object()])
 
 
+_ITEMS = ("a", '"', 7, None, True, ["n", 1.5])
+
+
 @obligation(funcs=["util.event_as_json"], timeout=(120, 600),
-            bounds="tag structure symbolic: 0-2 tags of 1-2 items each, items from {'', 'a', quote} by symbolic "
-                   "selector (all-string tags, the only ones admission lets through: see C03 ob_wellformed)")
-def ob_event_frame_structure(shape: List[List[int]]) -> str:
+            bounds="tag structure symbolic: 1-2 tags (name + 0-2 items; second tag name + 0-1 items) drawn by symbolic "
+                   "selector from {'a', quote, 7, null, true, nested list with a float} (non-string tag values are admissible: "
+                   "the repo's tests store [\"expiration\", 1672329427])")
+def ob_event_frame_structure(a: List[int], b: List[int], two: bool) -> str:
     """
-    pre: len(shape) <= 2 and all(1 <= len(t) <= 2 and all(0 <= i < 3 for i in t) for t in shape)
+    pre: len(a) <= 2 and len(b) <= 1 and all(0 <= i < 6 for i in a) and all(0 <= i < 6 for i in b)
+    pre: two or not b
     post: _.startswith("ok")
     """
     logging.disable(logging.CRITICAL)
     _stub()
-    tags = [[pick(("", "a", '"'), i) for i in t] for t in shape]
+    tags = [["t"] + [pick(_ITEMS, i) for i in a]] + ([["u"] + [pick(_ITEMS, i) for i in b]] if two else [])
     ev = Event(pubkey=PK, content="c", created_at=5, kind=1, tags=tags, id=ID, sig=SIG)
     frame = U.event_as_json("s", ev)
-    return _judge(frame, _ref_event_frame("s", ev), ["EVENT", "s", ev.to_json_object()])
+    try:
+        got = json.loads(frame)
+    except ValueError:
+        return "frame is not JSON: %r" % (frame,)
+    if got != ["EVENT", "s", ev.to_json_object()]:
+        return "frame parses to %r, want %r" % (got, ev.to_json_object())
+    return "ok"
 
 
 class _NumHole(int):
